@@ -113,6 +113,8 @@ def ext_http_cases(ctx, ops, rnd):
         exts = [EXT_SETS[0], EXT_SETS[1 + (k + ctx.seed) % (len(EXT_SETS) - 1)]]
         if ctx.tier != "quick":
             exts = EXT_SETS
+        elif "@defer" in q and EXT_SETS[-1] not in exts:
+            exts = exts + [EXT_SETS[-1]]        # streamed payloads x a response that cannot be serialized: always
         for ext in exts:
             for tr in ("post", "get", "sse", "multipart", "ws", "gqlws"):
                 c = {"id": "%s+%s/%s" % (i, ext[0], tr), "query": q, "plan": p, "transport": tr, "timeoutMs": 3000}
@@ -121,6 +123,8 @@ def ext_http_cases(ctx, ops, rnd):
                 if tr == "sse":
                     c["keepAliveUs"] = 1500
                 v = rnd.randrange(4)
+                if ext[0] == "unserializable-extension":
+                    v = 0       # run to the end: what matters is who writes the payload that cannot be written
                 if v == 1 and tr in ("post", "get", "sse", "multipart"):
                     c["id"] += "/drop"
                     c["disconnectAfter"] = 20
@@ -372,7 +376,18 @@ def run(ctx):
         for extra in (xh, ws):
             rc, so, se = vf.sh([b, "-mode", "http", "-maxhung", "3"], inp="\n".join(json.dumps(c) for c in extra) + "\n", timeout=2400)
             if rc != 0:
-                raise RuntimeError("http runner failed: " + se[-2000:])
+                # net/http logs one "superfluous response.WriteHeader" line per contained serialization panic: not the reason
+                why = [x for x in se.split("\n") if x.strip() and "superfluous response.WriteHeader" not in x]
+                done_n = len(result_lines(so))
+                if any(x.startswith("panic:") or x.startswith("fatal error:") for x in why) and done_n < len(extra):
+                    # the PROCESS died (a panic on a goroutine nothing recovers): the operation being served is the failing input
+                    k0 = next(i for i, x in enumerate(why) if x.startswith("panic:") or x.startswith("fatal error:"))
+                    ctx.violation({"kind": "process-crash", "config": cfg, "case": extra[done_n], "stderr": "\n".join(why[k0:k0 + 14])[:3000],
+                                   "shape": {"crash": True, "transport": extra[done_n].get("transport"), "goroutine": next((x.strip().split(" in goroutine")[0] for x in why[k0:] if x.startswith("created by")), "")[:120]},
+                                   "replay": "echo '<case json>' | <generated server %s> -mode http   (the process exits with the panic)" % cfg})
+                    answered += list(zip(extra, result_lines(so)))
+                    continue
+                raise RuntimeError("http runner failed rc=%s after %d result lines: %s" % (rc, done_n, "\n".join(why)[-2000:]))
             answered += list(zip(extra, result_lines(so)))
         for c, l in answered:
             r = json.loads(l)
